@@ -197,7 +197,7 @@ pub async fn run(cx: &mut Ctx) {
                     pos: len - back,
                     bit: rng.below(8) as u8,
                     val: rng.below(20) as u8,
-                    mode: rng.below(3) as u8,
+                    mode: rng.below(4) as u8,
                     compact_after: false,
                 });
             }
@@ -210,7 +210,7 @@ pub async fn run(cx: &mut Ctx) {
                     pos: 0,
                     bit: 0,
                     val: 0,
-                    mode: rng.below(3) as u8,
+                    mode: rng.below(4) as u8,
                     compact_after: false,
                 });
             }
@@ -228,7 +228,7 @@ pub async fn run(cx: &mut Ctx) {
                     pos,
                     bit: rng.below(8) as u8,
                     val: rng.below(256) as u8,
-                    mode: rng.below(3) as u8,
+                    mode: rng.below(4) as u8,
                     compact_after: rng.chance(1, 4),
                 });
             }
@@ -344,7 +344,7 @@ pub async fn run(cx: &mut Ctx) {
             }
         };
         crate::run::set_crumb(None);
-        if c.mode == 1 {
+        if c.mode == 1 || c.mode == 3 {
             for n in &names {
                 let _ = db.exec(&format!("SELECT * FROM {n}")).await;
             }
@@ -362,6 +362,13 @@ pub async fn run(cx: &mut Ctx) {
             if let Err(e) = write_in_place(&wroot, &tree, &c.file) {
                 cx.harness_error = Some(format!("corrupting {}: {e}", c.file));
                 return;
+            }
+            if c.mode == 3 {
+                // every block has been read (and verified) once; under cache pressure it is
+                // read from the - now altered - file again
+                if let risinglight::storage::StorageImpl::SecondaryStorage(s) = db.inner.verif_storage() {
+                    s.verif_evict_block_cache();
+                }
             }
         }
         if c.compact_after {
